@@ -26,7 +26,7 @@ def check(ctx):
             x = input - target
             return (-x + torch.relu(-x)).mean(0)
 
-    n = 400 if ctx.tier == "quick" else 6000
+    n = 3000 if ctx.tier == "quick" else 12000
     reqs, metas = [], []
     for it in range(n):
         which = g.choice(["erm", "eloss", "iso", "es", "qcvar", "pwl", "eloss_default"])
